@@ -153,6 +153,11 @@ def _mat(m):
     return "-" if not m else ";".join(_vec(r) for r in m)
 
 
+def _grid_sig(argvals):
+    """the grid WITH its dimension names, in their order (a grid under other names is another grid)"""
+    return "|".join(f"{k}=" + _vec(np.asarray(argvals[k], dtype=float).ravel().tolist()) for k in argvals.keys())
+
+
 def _grid_of(argvals):
     return [np.asarray(argvals[k], dtype=float).ravel().tolist() for k in argvals.keys()]
 
@@ -377,7 +382,12 @@ def _gen_comp(rng: Rng, n_obs, two_d=None):
         vals = [[rs(rng.dyadic(-4, 4, 2))] * n for _ in range(n_obs)]
     else:
         vals = [[rs(x) for x in rng.dyadics(n, -8, 8, 3)] for _ in range(n_obs)]
-    return dict(grid=grid, vals=vals)
+    # user-chosen dimension names (not `input_dim_k`; in 2-D not in sorted order, or the canonical names swapped)
+    names = rng.choice([None, None, ["time"], ["t"]]) if not two_d else rng.choice([None, ["y", "x"], ["input_dim_1", "input_dim_0"], ["time", "space"]])
+    out = dict(grid=grid, vals=vals)
+    if names:
+        out["names"] = names
+    return out
 
 
 def _unit(rng: Rng, bits=4, edge=0.3):
@@ -449,7 +459,7 @@ def _gen_scripted(rng: Rng):
     return dict(kind="scripted", shape=shape, global_rng=rng.random() < 0.3, data=data, ops=ops, tail=tail)
 
 
-SIM_KINDS = ["kl", "kl_multi", "kl_2d", "kl_mixed", "brownian", "brownian_geometric", "brownian_fractional", "datasets", "kl_1pt", "kl_2pt"]
+SIM_KINDS = ["kl", "kl_named", "kl_2d_named", "kl_multi_named", "kl_multi", "kl_2d", "kl_mixed", "brownian", "brownian_geometric", "brownian_fractional", "datasets", "kl_1pt", "kl_2pt"]
 
 
 def _gen_real(rng: Rng, kind):
@@ -504,7 +514,8 @@ def _mk_dense(c):
     from FDApy.representation.values import DenseValues
 
     dims = [len(g) for g in c["grid"]]
-    arg = DenseArgvals({f"input_dim_{k}": np.array([float(F(x)) for x in g]) for k, g in enumerate(c["grid"])})
+    names = c.get("names") or [f"input_dim_{k}" for k in range(len(c["grid"]))]
+    arg = DenseArgvals({names[k]: np.array([float(F(x)) for x in g]) for k, g in enumerate(c["grid"])})
     vals = np.array([[float(F(x)) for x in r] for r in c["vals"]], dtype=float).reshape([len(c["vals"])] + dims)
     return DenseFunctionalData(arg, DenseValues(vals))
 
@@ -558,8 +569,8 @@ def _check_noise(viol, entry, data, noisy, r, Zs, exact):
         viol.append(dict(clause="noise_difference", entry=entry, msg=f"structure {type(data).__name__}/{len(cd)} vs {type(noisy).__name__}/{len(cn)}"))
         return
     for ci, (a, b) in enumerate(zip(cd, cn)):
-        if _mat(_grid_of(a.argvals)) != _mat(_grid_of(b.argvals)):
-            viol.append(dict(clause="same_grid", entry=entry, msg=f"component {ci}: noisy curves are on another grid"))
+        if _grid_sig(a.argvals) != _grid_sig(b.argvals) or not (a.argvals == b.argvals):
+            viol.append(dict(clause="same_grid", entry=entry, msg=f"component {ci}: noisy curves are on another grid: {_grid_sig(b.argvals)[:90]} instead of {_grid_sig(a.argvals)[:90]}"))
         x, y = np.asarray(a.values, dtype=float), np.asarray(b.values, dtype=float)
         if x.shape != y.shape:
             viol.append(dict(clause="noise_difference", entry=entry, msg=f"component {ci}: shape {x.shape} vs {y.shape}"))
@@ -596,7 +607,7 @@ def _check_sparse(viol, entry, source, sparse):
             viol.append(dict(clause="sparsify_subset", entry=entry, msg=f"component {ci} is {type(b).__name__}"))
             continue
         x = np.asarray(a.values, dtype=float)
-        g = _mat(_grid_of(a.argvals))
+        g = _grid_sig(a.argvals)
         if len(b.values) != x.shape[0]:
             viol.append(dict(clause="sparsify_subset", entry=entry, msg=f"component {ci}: {len(b.values)} curves vs {x.shape[0]}"))
             continue
@@ -614,7 +625,7 @@ def _check_sparse(viol, entry, source, sparse):
             if v.size >= 2 and nk < 2:
                 viol.append(dict(clause="at_least_two", entry=entry, causes=["kept<2"],
                                  msg=f"component {ci} curve {i}: only {nk} of {v.size} samples kept"))
-            if _mat(_grid_of(b.argvals[key])) != g:
+            if _grid_sig(b.argvals[key]) != g:
                 viol.append(dict(clause="sparsify_subset", entry=entry, msg=f"component {ci} curve {i}: grid differs from the source grid"))
 
 
@@ -760,6 +771,29 @@ def _real_sim(case):
     if kind in ("kl", "kl_1pt", "kl_2pt"):
         mm = {"kl": m, "kl_1pt": 1, "kl_2pt": 2}[kind]
         s = KarhunenLoeve(n_functions=2, basis_name="fourier", argvals=DenseArgvals({"input_dim_0": np.linspace(0, 1, mm)}), random_state=seed)
+        s.new(n_obs=n_obs)
+    elif kind in ("kl_named", "kl_2d_named", "kl_multi_named"):
+        # user-defined bases on argvals with user-chosen dimension names
+        from FDApy.representation.basis import Basis, MultivariateBasis
+        from FDApy.representation.values import DenseValues
+
+        def given(names, grids, K=2):
+            arg = DenseArgvals({nm: g for nm, g in zip(names, grids)})
+            shape = [len(g) for g in grids]
+            vals = np.stack([np.cos((k + 1) * np.add.outer(grids[0], grids[1]) if len(grids) == 2 else (k + 1) * np.pi * grids[0]) for k in range(K)]).reshape([K] + shape)
+            return arg, DenseValues(vals)
+
+        if kind == "kl_named":
+            a, v = given(["time"], [t])
+            basis = Basis(name="given", argvals=a, values=v)
+        elif kind == "kl_2d_named":
+            a, v = given(["y", "x"], [t, np.linspace(0, 1, 3)])
+            basis = Basis(name="given", argvals=a, values=v)
+        else:
+            a1, v1 = given(["time"], [t])
+            a2, v2 = given(["s"], [np.linspace(-1, 1, m + 1)])
+            basis = MultivariateBasis(name="given", argvals=[a1, a2], values=[v1, v2])
+        s = KarhunenLoeve(basis_name=None, basis=basis, random_state=seed)
         s.new(n_obs=n_obs)
     elif kind == "kl_multi":
         s = KarhunenLoeve(n_functions=[2, 2], basis_name=["fourier", "legendre"],
